@@ -92,3 +92,21 @@ CLAIMS["C03"] = (
     "The filesystem itself (what Path.resolve() returns, that mkdir/open act where the resolved path says) and pathlib's parser are assumed contracts; concurrent creation of links by parallel folder workers between check and use has no semantics in this family and is excluded; pre-existing links in the destination are outside the property's quantifier.",
     "DESIGN.md 7 (C03)",
 )
+
+CLAIMS["C02"] = (
+    "The metadata codec of the tree round trip, proved on the real source for all values: (i) attribute word - for every st_mode and every combination of is_symlink/is_dir/is_file/dereference the POSIX branch of _make_file_info produces a 32-bit word from which ArchiveFile.is_directory/is_symlink/posix_mode recover the member kind (link unless dereferenced, else what it points to) and exactly S_IMODE(st_mode); directories and only directories are empty streams (bit-vector VCs generated from the AST, pyvc.bvexec); (ii) timestamps - for every double t in 1970..2100 totimestamp(from_datetime(t)) differs from t by at most 5 microseconds and the FILETIME fits 64 bits (rounding-error VC generated from the AST, pyvc.floatvc); (iii) SevenZipFile._extract post-pass - every stored modification time is handed to os.utime (also the epoch itself), chmod/utime act only on registered outputs.",
+    "Not decided: reproduction of a real directory tree (os.listdir/lstat/utime/chmod/symlink effects, _writeall walk, link-target text), the shutil/CLI front ends, non-Linux platform branches of _make_file_info. Float semantics: IEEE-754 binary64 round-to-nearest error model (assumption, stated in pyvc/floatvc.py).",
+    "DESIGN.md 7 (C02), 11",
+)
+
+CLAIMS["C06"] = (
+    "Reader conformance as contracts against the 7z format: header primitives for all encodings (C17 contracts), SignatureHeader._read, PackInfo._read (pack position, sizes, Digests structure with one CRC per DEFINED digest, END marker position, prefix-sum pack positions, for every count - ghost cut offsets over the input bytes), SevenZipFile._real_get_contents (header parsed only after its CRC matched; members appended in header order; a member's digest is present exactly when its OWN defined flag is set and is its own; cursor of non-empty members advances by one; password flag from every folder), _get_fileinfo_sizes (size of the k-th non-empty member is unpacksizes[k]), Worker.extract / extract_single (every folder with members gets exactly one decoding task at its own pack offsets).",
+    "Not under contract yet (listed as such in DESIGN.md 11): SubstreamsInfo._read, UnpackInfo._read, Folder._read, FilesInfo._read, StreamsInfo.read, Header._read, SevenZipDecompressor chain selection; the folder/stream arithmetic of _real_get_contents is covered by per-iteration trace obligations, not by one inductive invariant. Codec libraries and third-party writers are assumed to follow their contracts. Genuine defects found here and repaired (FX11-FX15) are recorded in known_findings.json.",
+    "DESIGN.md 7 (C06), 11",
+)
+
+CLAIMS["C08"] = (
+    "Append as contracts on the real code: SubstreamsInfo.write (exact layout for every folder/stream count: NumUnpackStream record iff some folder differs from one, a size NUMBER for every substream except the last of its folder with the cursor over ALL substreams, Digests structure, END) and PackInfo.write proved byte-exactly with ghost cut offsets; FilesInfo writers (C07); Header.initialize in append mode adds exactly one folder at the end, bumps the folder count and appends a zero stream counter, touching nothing else; Worker._after_write appends one size/CRC/flag and increments the LAST folder's counter; Worker.flush_archive records exactly one pack stream; Worker.__init__ starts the write cursor behind the existing members; _prepare_append positions the file at the end of the packed streams; PackInfo._read (re-read side).",
+    "Histories are not enumerated: each session is the same code under the same contracts and the member list after a session is old ++ new by these per-call contracts (written argument, DESIGN.md 7). UnpackInfo.write / Folder.write / Header.write and the whole-header round trip are not under contract yet. Genuine defects found and repaired: FX11 (CRC per defined digest), FX12 (w([a]) a([b,c]) corrupted the archive), FX15 (zero-stream folders).",
+    "DESIGN.md 7 (C08), 11",
+)
